@@ -261,7 +261,11 @@ def _main(args, pid, seed):
     }
     if not args.no_evidence and not args.part:
         os.makedirs(os.path.join(VERIF, 'evidence'), exist_ok=True)
-        validate_evidence(evidence)
+        try:
+            validate_evidence(evidence)
+        except engine.HarnessError:
+            if not violations:
+                raise
         with open(os.path.join(VERIF, 'evidence', pid + '.json'), 'w') as f:
             json.dump(evidence, f, indent=1, sort_keys=False)
             f.write('\n')
@@ -273,17 +277,19 @@ def _main(args, pid, seed):
     for f in known:
         if f.get('status') == 'known' and total.known_hits.get(f['id']):
             print('KNOWN-FINDING: property=%s %s: %s' % (pid, f['id'], f['what']))
-    if missing:
-        raise engine.HarnessError('generator produced no case of required class(es): %s' % missing)
-    if nontrivial < 2:
-        raise engine.HarnessError('fewer than two distinct non-trivial cases')
     if violations:
         for b, p in violations:
             print('  deviation part=%s oracle=%s signature=%s count=%s\n    %s' % (
                 b['part'], b['oracle'], b['signature'], b.get('count'), b['detail'][:800].replace('\n', '\n    ')))
         for p in sorted(set(p for _b, p in violations)):
             print('VIOLATION property=%s replay=%s' % (pid, p))
+        if missing:
+            print('note: the run produced no case of class(es) %s (the code under test failed before they were reached)' % missing)
         return 1
+    if missing:
+        raise engine.HarnessError('generator produced no case of required class(es): %s' % missing)
+    if nontrivial < 2:
+        raise engine.HarnessError('fewer than two distinct non-trivial cases')
     return 0
 
 
